@@ -22,6 +22,7 @@ RULE += ("; round 5: every non-ASCII code point that a case mapping sends onto r
 RULE += ("; round 6: valid words wrapped in a pair of foreign characters (quotes, brackets, ...)")
 RULE += ("; round 7: text-like objects that are not str (UserString, Bio.Seq, MutableSeq, memoryview, PurePath, iterator); URL / quoted-printable / HTML / C escape sequences; foreign characters after a line break")
 RULE += ("; round 8: texts with 33-400 separate whitespace runs; a SequenceParameters object as argument")
+RULE += ("; round 9: terminal-group labels, residue numbering and lone surrogates around / inside valid words")
 EXHAUSTIVE = {"quick": False, "thorough": False}
 EXHAUSTIVE_NOTE = {"quick": "ASCII 0..127 x 3 positions x 2 base words; every isspace character",
                    "thorough": "ASCII 0..127 x 3 positions x 6 base words; every isspace character"}
